@@ -2,7 +2,7 @@
     Statements and [Print Assumptions] only. *)
 From WG Require Import Base.Prelude Par.Splice Transform.Pipelines Transform.Statements
   Transform.Facts Transform.Facts2 Transform.Facts3 Transform.SortedParFacts Transform.Facts4
-  Transform.ReadParFacts.
+  Transform.ReadParFacts Transform.LabelFacts Transform.RunFacts.
 Local Open Scope N_scope.
 
 (** the specification lists are the successor lists of a relation: membership ... *)
@@ -84,6 +84,28 @@ Print Assumptions C09_transpose_twice.
 Theorem C09_ksort_ok : S_ksort_ok.
 Proof. exact ksort_ok. Qed.
 Print Assumptions C09_ksort_ok.
+
+(** labelled transposition: every label travels with its arc (any label type, any sorter
+    that sorts by key and keeps the labels) *)
+Theorem C09_transpose_labeled : S_transpose_labeled.
+Proof. exact transpose_labeled_correct. Qed.
+Print Assumptions C09_transpose_labeled.
+
+(** the function the model driver runs: for every transform, sequential or parallel, the
+    result read through iter() and through into_par_lenders() is the specification *)
+Theorem C09_run_xop : S_run_xop.
+Proof. exact run_xop_correct. Qed.
+Print Assumptions C09_run_xop.
+
+Theorem C09_run_labeled : S_run_labeled.
+Proof. exact run_labeled_correct. Qed.
+Print Assumptions C09_run_labeled.
+
+(** the sorter refuses exactly the inputs with a source out of range (the error return of
+    map with a value >= num_nodes on a node that has successors) *)
+Theorem C09_out_of_range : S_out_of_range.
+Proof. exact out_of_range. Qed.
+Print Assumptions C09_out_of_range.
 
 (** non-vacuity: a graph with a loop, an isolated node and an empty middle segment of the
     cut sequence; the schedule is legal and the pipelines compute what the theorems say *)
